@@ -42,7 +42,7 @@ LEVEL_TEXT = ('Theorems over a byte-level Gallina model of BundleV1/BundleIndexV
               'in Coq on the same histories.')
 LEVEL_NOTE = ('Trusted: Coq kernel, hand-written model Bundle.v, this harness and its independent reader.  Guards in the '
               'theorems (= what the formats can represent): tile size < 2^24 (v2) / < 2^32 (v1), data file < 2^40 bytes; '
-              'beyond them v2 corrupts the size field silently (proved: v2_store_overflow_refuted).  Not modelled: partial '
+              'beyond them an offset no longer fits its 40 bits (v2 adds it into the size bits, v1 truncates it) - no theorem or refutation witness is given for that range.  Not modelled: partial '
               'effects of a store that raises, FileLock (C07), write_atomic / crash states (C06), permissions, dry_run, '
               'the float rounding of the threshold test (theorems hold for ANY skip decision; the correspondence uses '
               'thresholds away from rounding boundaries), stale tmp_defrag files of an interrupted earlier defrag run, '
